@@ -549,7 +549,10 @@ func gen(r *lib.Rand, tier string, emit func(string)) {
 		case 0:
 			return "-"
 		case 1:
-			return fmt.Sprintf("r%dx60:255:%s", r.Pick([]int{254, 255, 256, 300}), hx(r.Bytes(255))) // around the 65535-byte limit
+			if !thorough && r.Chance(60) {
+				return fmt.Sprintf("r%dx60:255:%s", r.Pick([]int{3, 17}), hx(r.Bytes(255)))
+			}
+			return fmt.Sprintf("r%dx60:255:%s", r.Pick([]int{254, 255, 256, 300}), hx(r.Bytes(255))) // around 65535 bytes, where Len() wraps
 		case 2:
 			return fmt.Sprintf("r%dx0:0:-", r.Pick([]int{1, 59, 1000, 2000}))
 		}
@@ -608,7 +611,14 @@ func gen(r *lib.Rand, tier string, emit func(string)) {
 			for fix := 0; fix < 2; fix++ {
 				for cs := 0; cs < 2; cs++ {
 					emit("reset")
-					for _, h := range hists {
+					hs := hists
+					if strings.Contains(shape, "r300x") { // 77 KB of options: two histories, one payload size (model time)
+						if n != 0 {
+							continue
+						}
+						hs = []string{"fresh", "dirty165"}
+					}
+					for _, h := range hs {
 						emit(fmt.Sprintf("ldhcp ser %d %d %s %s %s", fix, cs, h, shape, payloadTok(n)))
 					}
 					emit(fmt.Sprintf("ldhcp rt %s %s", shape, payloadTok(n)))
